@@ -151,18 +151,33 @@ def check_pattern(ctx, tr, rng, k, j, forced=None):
         if isinstance(pats, str):
             q = WP.Path(os.path.join(root, c))
             apat = G.escape(root) + '/' + text.lstrip('/')
-            try:
-                x = q.globmatch(apat, flags=flags_p & strip)
-                s = os.path.join(root, c) + ('/' if os.path.isdir(os.path.join(root, c)) else '')
-                z = G.globmatch(s, apat, flags=mflags | G.FORCEUNIX)
-            except Exception as e:  # noqa: BLE001
-                ctx.disagree(f'Path.globmatch raised {type(e).__name__}', dict(wit, path=c))
-                continue
-            ctx.count('globmatch_view_checks')
-            ctx.evals()
-            if x is not z:
-                ctx.disagree('Path.globmatch differs from glob.globmatch on the path text with a trailing separator for directories',
-                             dict(wit, path=c, pathlib=x, glob=z))
+            isd = os.path.isdir(os.path.join(root, c))
+            for extra_p, extra_g in ((0, 0), (WP.NODIR, G.NODIR)):
+                try:
+                    x = q.globmatch(apat, flags=(flags_p & strip) | extra_p)
+                    y = q.full_match(apat, flags=(flags_p & strip) | extra_p)
+                    s = os.path.join(root, c) + ('/' if isd else '')
+                    z = G.globmatch(s, apat, flags=mflags | G.FORCEUNIX | extra_g)
+                    # the same with a relative concrete path below the working directory
+                    cwd = os.getcwd()
+                    os.chdir(root)
+                    try:
+                        xr = WP.Path(c).globmatch(text, flags=(flags_p & strip) | extra_p)
+                        yr = WP.Path(c).full_match(text, flags=(flags_p & strip) | extra_p)
+                    finally:
+                        os.chdir(cwd)
+                    zr = G.globmatch(os.path.normpath(c) + ('/' if isd else ''), text, flags=mflags | G.FORCEUNIX | extra_g)
+                except Exception as e:  # noqa: BLE001
+                    ctx.disagree(f'Path.globmatch raised {type(e).__name__}', dict(wit, path=c))
+                    continue
+                ctx.count('globmatch_view_checks', 2)
+                ctx.evals(2)
+                if not (x is z and y is z):
+                    ctx.disagree('Path.globmatch / full_match differ from glob.globmatch on the path text with a trailing separator for directories',
+                                 dict(wit, path=c, globmatch=x, full_match=y, glob=z, nodir=bool(extra_p), is_dir=isd))
+                elif not (xr is zr and yr is zr) and not any(seg in ('.', '..') for seg in c.split('/')):
+                    ctx.disagree('relative Path.globmatch / full_match differ from glob.globmatch on the path text with a trailing separator for directories',
+                                 dict(wit, path=c, globmatch=xr, full_match=yr, glob=zr, nodir=bool(extra_p), is_dir=isd))
     # ---- match(p, REALPATH) <=> rglob ----------------------------------------------------------------
     segs = R.split_segments(toks)
     dotseg = any(R.literal_text(R.norm_seg(sg)) in ('.', '..') for sg in segs[1])
